@@ -58,6 +58,16 @@ pub trait IoRead {
             && io_kind(r->Err_0) == old(self).end_kind()
             && final(buf)@.len() == old(buf)@.len(),
         final(self).end_kind() == old(self).end_kind();
+    // AsyncReadExt::read / io::Read::read: one read of at most buf.len() bytes (not used by the pinned code; present so that
+    // a change from read_exact to read is *verified against* instead of being an unsupported construct)
+    fn read(&mut self, buf: &mut [u8]) -> (r: Result<usize, io::Error>)
+      ensures
+        final(self).end_kind() == old(self).end_kind(),
+        final(buf)@.len() == old(buf)@.len(),
+        r matches Ok(n) ==> n <= old(buf)@.len() && n <= old(self).stream().len()
+            && final(buf)@.take(n as int) == old(self).stream().take(n as int) && final(buf)@.skip(n as int) == old(buf)@.skip(n as int)
+            && final(self).stream() == old(self).stream().skip(n as int),
+        r is Err ==> io_kind(r->Err_0) == old(self).end_kind() && final(self).stream() == old(self).stream();
 }
 
 // ---- the writer: stands for std::io::Write::write_all (A3)
@@ -68,6 +78,12 @@ pub trait IoWrite {
       ensures
         r is Ok ==> final(self).written() == old(self).written() + d@,
         r is Err ==> wrote_prefix(old(self).written(), final(self).written(), d@) && old(self).can_fail(),
+        final(self).can_fail() == old(self).can_fail();
+    // io::Write::write: may accept only a prefix (present for the same reason as IoRead::read)
+    fn write(&mut self, d: &[u8]) -> (r: Result<usize, io::Error>)
+      ensures
+        r matches Ok(n) ==> n <= d@.len() && final(self).written() == old(self).written() + d@.take(n as int),
+        r is Err ==> final(self).written() == old(self).written() && old(self).can_fail(),
         final(self).can_fail() == old(self).can_fail();
 }
 
@@ -100,6 +116,9 @@ impl IoWrite for Vec<u8> {
     #[verifier::external_body]
     fn write_all(&mut self, d: &[u8]) -> (r: Result<(), io::Error>)
     { std::io::Write::write_all(self, d) }
+    #[verifier::external_body]
+    fn write(&mut self, d: &[u8]) -> (r: Result<usize, io::Error>)
+    { std::io::Write::write(self, d) }
 }
 
 // &[u8] as a source: always ready, EOF when exhausted (tokio's impl AsyncRead for &[u8])
@@ -109,6 +128,9 @@ impl<'a> IoRead for &'a [u8] {
     #[verifier::external_body]
     fn read_exact(&mut self, buf: &mut [u8]) -> (r: Result<(), io::Error>)
     { std::io::Read::read_exact(self, buf) }
+    #[verifier::external_body]
+    fn read(&mut self, buf: &mut [u8]) -> (r: Result<usize, io::Error>)
+    { std::io::Read::read(self, buf) }
 }
 
 // ---- big-endian helpers (R5; contracts cross-checked for all inputs by Kani harness k_be_bytes)
@@ -185,3 +207,10 @@ pub fn str_slice_from<'a>(s: &'a str, a: usize) -> (r: &'a str)
 pub fn str_starts_with(s: &str, pat: &str) -> (r: bool)
     ensures r == (pat@.len() <= s@.len() && s@.take(pat@.len() as int) == pat@)
 { s.starts_with(pat) }
+
+// ---- String comparison / hashing (A4): uninterpreted functions of the two texts
+pub uninterp spec fn text_order(a: Seq<char>, b: Seq<char>) -> core::cmp::Ordering;
+#[verifier::external_body]
+pub fn string_cmp(a: &String, b: &String) -> (r: core::cmp::Ordering) ensures r == text_order(a@, b@) { a.cmp(b) }
+#[verifier::external_body]
+pub fn string_eq(a: &String, b: &String) -> (r: bool) ensures r == (a@ == b@) { a == b }
